@@ -151,7 +151,7 @@ func (b *backend) List(ctx context.Context, r *proto.RangeRequest) (resp *proto.
 		return nil, errors.New("invalid range end")
 	}
 
-	key, rangeEnd := b.coder.EncodeObjectKey(r.Key, 0), b.coder.EncodeObjectKey(r.End, 0)
+	key, rangeEnd := b.encodeRangeBound(r.Key), b.encodeRangeBound(r.End)
 
 	// add limit to check if there is more value
 	limit := r.Limit
@@ -181,6 +181,16 @@ func (b *backend) List(ctx context.Context, r *proto.RangeRequest) (resp *proto.
 	return resp, nil
 }
 
+// encodeRangeBound translates a raw range bound into the internal key space. A bound of the form K+"\x00" - what
+// etcd clients use for "just after K": the continue key of a paginated list, the end of a single-key range - has
+// to sort AFTER every version of K, although "\x00" sorts before the byte that separates key and revision.
+func (b *backend) encodeRangeBound(raw []byte) []byte {
+	if n := len(raw); n > 0 && raw[n-1] == 0 {
+		return append(b.coder.EncodeObjectKey(raw[:n-1], math.MaxUint64), 0)
+	}
+	return b.coder.EncodeObjectKey(raw, 0)
+}
+
 // Count implements Backend interface
 func (b *backend) Count(ctx context.Context, r *proto.CountRequest) (resp *proto.CountResponse, err error) {
 	ts := time.Now()
@@ -200,7 +210,7 @@ func (b *backend) Count(ctx context.Context, r *proto.CountRequest) (resp *proto
 		}, nil
 	}
 
-	key, rangeEnd := b.coder.EncodeObjectKey(r.Key, 0), b.coder.EncodeObjectKey(r.End, 0)
+	key, rangeEnd := b.encodeRangeBound(r.Key), b.encodeRangeBound(r.End)
 	count, err := b.scanner.Count(ctx, key, rangeEnd, rev)
 	if err != nil {
 		klog.Errorf("backend count %v return err %v", r, err)
@@ -224,7 +234,7 @@ func (b *backend) GetPartitions(ctx context.Context, r *proto.ListPartitionReque
 	}()
 
 	rev := b.tso.GetRevision()
-	start, end := b.coder.EncodeObjectKey(r.Key, 0), b.coder.EncodeObjectKey(r.End, 0)
+	start, end := b.encodeRangeBound(r.Key), b.encodeRangeBound(r.End)
 
 	partitions, err := b.kv.GetPartitions(ctx, start, end)
 
